@@ -13,6 +13,8 @@ def is_num(x):
 def shape_of(v):
     """shape of a rectangular nesting of numbers (lists/tuples/ndarrays), else None"""
     if isinstance(v, np.ndarray):
+        if v.dtype.kind == "O":    # an object array is an array of numbers when every element is one
+            return v.shape if all(is_num(x) or isinstance(x, (bool, np.bool_)) for x in v.flat) else None
         return v.shape if v.dtype.kind in "fiub" else None
     if is_num(v):
         return ()
@@ -50,6 +52,18 @@ def doc_rows(n=None, nmin=1):
         s = shape_of(v)
         return s is not None and len(s) == 2 and s[1] == 3 and (s[0] == n if n else s[0] >= nmin)
     return pred
+
+
+def doc_poly_vertices(v):
+    """Polyline.vertices: rows of three numbers; in a list/tuple, rows (None, None, None) separate disconnected parts of the line"""
+    if v is None:
+        return True
+    if isinstance(v, np.ndarray):
+        return doc_rows(nmin=2)(v)
+    if not isinstance(v, (list, tuple)) or len(v) < 2:
+        return False
+    return all((isinstance(r, (list, tuple)) and len(r) == 3 and all(x is None for x in r))
+               or (isinstance(r, (list, tuple, np.ndarray)) and shape_of(r) == (3,)) for r in v)
 
 
 def doc_position(v):
@@ -109,6 +123,14 @@ def grammar(rng, nps):
     for k in (2, 3, 5):
         vals += [list(nps.uniform(0.2, 3, k - 1)) + [None], list(nps.uniform(0.2, 3, k - 1)) + ["2"]]
     vals += [[[1.0, 2.0, 3.0], [1.0, None, 3.0]], [[0, 0, 0], [1, 0, 0], [0, 1, 0], [0, 0, "1"]], [[0, 0, 0], [1, 0, 0], [0, None, 0]]]
+    # None rows: the documented separator of Polyline.vertices (stored as nan rows), malformed everywhere else and in every other form;
+    # non-numeric ndarrays (object dtype with None / with numbers only, strings, bytes, complex, datetime)
+    N3 = [None, None, None]
+    vals += [[N3, [0, 0, 0], [0, 0, 1], N3, N3, [1, 0, 0], [1, 0, 1], N3], [[0, 0, 0], N3, [1.0, 2.0, 3.0]], (N3, (None,) * 3), [N3, N3, N3], [N3, N3, N3, N3],
+             [[0, 0, 0], [None, None, 1.0], [1, 1, 1]], [[None, None], [None, None]], [[N3, N3], [N3, N3]], [N3], N3, [[0, 0, 0], None],
+             np.array([N3, [0, 0, 0]], dtype=object), np.array([[0, 0, 0], [1, 2, 3]], dtype=object), np.array([1, None, 3], dtype=object),
+             np.array([1, 2, 3], dtype=object), np.array(["1", "2", "3"]), np.array([b"1", b"2", b"3"]), np.array([1 + 0j, 2, 3]),
+             np.array([1, 2, 3], dtype="datetime64[s]"), [1, b"2", 3], ["1", "2", "3"]]
     rng.shuffle(vals)
     return vals
 
@@ -155,7 +177,7 @@ def attributes():
         (x.Triangle, dict(vertices=tet[:3], polarization=(1, 2, 3)), "vertices", doc_rows(n=3)),
         (c.Circle, dict(diameter=1, current=1), "diameter", doc_scalar(nonneg=True)),
         (c.Circle, dict(diameter=1, current=1), "current", doc_scalar()),
-        (c.Polyline, dict(vertices=tet[:3], current=1), "vertices", doc_rows(nmin=2)),
+        (c.Polyline, dict(vertices=tet[:3], current=1), "vertices", doc_poly_vertices),
         (c.Polyline, dict(vertices=tet[:3], current=1), "current", doc_scalar()),
         (x.Dipole, dict(moment=(1, 2, 3)), "moment", doc_vec(3)),
         (magpy.Sensor, {}, "pixel", doc_pixel),
@@ -224,11 +246,11 @@ def sweep(ctx, n_rounds):
                             elif isinstance(v, str):
                                 ok = back == v
                             else:
-                                a = arr(v)
-                                ok = np.allclose(np.asarray(back, float).reshape(-1), a.reshape(-1)) and np.asarray(back).dtype == float
+                                a = arr(v)   # a separator row (None, None, None) is stored as a nan row
+                                ok = np.allclose(np.asarray(back, float).reshape(-1), a.reshape(-1), equal_nan=True) and np.asarray(back).dtype == float
                                 if isinstance(vin, np.ndarray) and vin.size and vin.dtype == float:
                                     vin.flat[0] += 7.0
-                                    ok = ok and np.allclose(np.asarray(getattr(obj, attr), float).reshape(-1), a.reshape(-1))
+                                    ok = ok and np.allclose(np.asarray(getattr(obj, attr), float).reshape(-1), a.reshape(-1), equal_nan=True)
                             if not ok:
                                 report(f"stored-differs:{name}", f"value {vrepr} not read back equal / not an independent float copy", {"attr": name, "value": vrepr, "via": via})
                             # no accepted object may later fail with an internal error
